@@ -41,6 +41,12 @@ def check(run, args):
     if prop == "C05":
         # (A) JenGuess: over every class sequence up to the bound the guessed alias is a legal identifier spelling
         run.tlc("MC_Guess.tla", "Guess.cfg", overrides={"MaxLen": 8} if thorough else None)
+        if thorough:
+            # (A) for unbounded histories: the invariant (names unique and legal) is INDUCTIVE - from every table over the
+            # universe that satisfies it (reachable or not), under every hint and prefix, one more register keeps it;
+            # with the pinned tree's deviation switched on the induction step must fail (vacuity control)
+            run.tlc("MC_RegInd.tla", "RegInd.cfg", timeout=3000, xmx="12g")
+            run.tlc("MC_RegInd.tla", "RegInd.cfg", overrides={"Legacy": '{"PrefixAfterUnique"}', "IPaths": '{"x/d", "y/d"}'}, expect_violation=True)
     for u in prof["universes"]:
         cfg = "Imports_%s.cfg" % u
         # (A)+(export): exhaustive model check of the universe; one history per explored observation
